@@ -44,9 +44,16 @@ var (
 	nextID  = 0
 )
 
+// pinShard >= 0 pins all following cases to one shard, so that a SEQUENCE of evaluations (history
+// family) happens inside one process.
+var pinShard = -1
+
 func mine() (int, bool) {
 	id := nextID
 	nextID++
+	if pinShard >= 0 {
+		return id, pinShard%nshards == shard
+	}
 	return id, id%nshards == shard
 }
 
@@ -582,6 +589,10 @@ func main() {
 	// 4b. near-ties: values 1-4 ulps apart (must NOT be grouped), mixed with true ties
 	nearTies(rng)
 
+	// 4c. histories: look-alike tie vectors with large tie groups, evaluated one after the other in
+	//     one process; every answer must be the one the stateless specification gives for ITS case
+	historyFamily(rng)
+
 	// 5. random samples up to and across the real limits, K ∈ {1,2,3,…}
 	nbig := hx.N(8, 60)
 	for i := 0; i < nbig; i++ {
@@ -650,6 +661,173 @@ func main() {
 		}
 		runDist(n1, n2, T, tagOf(T, n1, n2, defLim, defLimT, "mid"))
 	}
+}
+
+// segmentations lists every way to cut the digit string into numbers 1..25 without leading zeros.
+func segmentations(d string) [][]int {
+	var out [][]int
+	var rec func(pos int, cur []int)
+	rec = func(pos int, cur []int) {
+		if pos == len(d) {
+			if len(cur) >= 2 {
+				out = append(out, append([]int(nil), cur...))
+			}
+			return
+		}
+		if d[pos] == '0' {
+			return
+		}
+		for l := 1; l <= 2 && pos+l <= len(d); l++ {
+			v, _ := strconv.Atoi(d[pos : pos+l])
+			if v >= 1 && v <= 25 {
+				rec(pos+l, append(cur[:len(cur):len(cur)], v))
+			}
+		}
+	}
+	rec(0, nil)
+	return out
+}
+
+func digits(T []int) string {
+	var b strings.Builder
+	for _, t := range T {
+		b.WriteString(strconv.Itoa(t))
+	}
+	return b.String()
+}
+
+func sumInts(T []int) int {
+	n := 0
+	for _, t := range T {
+		n += t
+	}
+	return n
+}
+
+// twoUofR is 2U of the assignment class r of tie vector T (pair counting per group).
+func twoUofR(T, r []int) int {
+	below, u := 0, 0
+	for k := range T {
+		u += 2*r[k]*below + r[k]*(T[k]-r[k])
+		below += T[k] - r[k]
+	}
+	return u
+}
+
+// historyFamily: tie vectors with a group of 10-14 values whose decimal digits, written one after
+// the other, read the same as another tie vector's ({1,11,1}, {11,1,1}, {1,1,11}; {1,12}, {11,2}; ...):
+// permutations and re-splittings. All members of a family are evaluated in ONE process, with equal N1
+// and at equal 2U (the distribution cases sweep every 2U; the test cases are chosen to share n1 and U),
+// in both orders. MannWhitneyUTest and UDist are functions of their arguments: what was computed
+// before must not matter.
+func historyFamily(rng *hx.Rand) {
+	defer func() { pinShard = -1 }()
+	seen := map[string]bool{}
+	var fams [][][]int
+	var build func(cur []int, bigs int)
+	build = func(cur []int, bigs int) {
+		if len(cur) >= 2 && bigs >= 1 {
+			d := digits(cur)
+			if !seen[d] {
+				seen[d] = true
+				var fam [][]int
+				for _, T := range segmentations(d) {
+					if sumInts(T) <= 24 {
+						fam = append(fam, T)
+					}
+				}
+				if len(fam) >= 2 {
+					fams = append(fams, fam)
+				}
+			}
+		}
+		if len(cur) == 4 {
+			return
+		}
+		for _, v := range []int{1, 2, 3, 10, 11, 12, 13, 14} {
+			nb := bigs
+			if v >= 10 {
+				nb++
+			}
+			if nb <= 1 || (nb == 2 && len(cur) <= 1) {
+				build(append(cur[:len(cur):len(cur)], v), nb)
+			}
+		}
+	}
+	build(nil, 0)
+	// a deterministic sample of the families, the coordinator's witnesses first
+	first := [][][]int{segFam("1111"), segFam("112"), segFam("1112"), segFam("1211")}
+	nf := hx.N(40, 400)
+	pick := first
+	for i := 0; i < nf && len(fams) > 0; i++ {
+		pick = append(pick, fams[rng.Intn(len(fams))])
+	}
+	for fi, fam := range pick {
+		pinShard = fi
+		// (a) distributions: every member with the same n1, all 2U; second n1 in reverse order
+		for pass, n1 := range []int{2 + fi%4, 5 + fi%2} {
+			order := fam
+			if pass == 1 {
+				order = nil
+				for i := len(fam) - 1; i >= 0; i-- {
+					order = append(order, fam[i])
+				}
+			}
+			for _, T := range order {
+				if N := sumInts(T); n1 < N && N-n1 <= defLimT && hasTie(T) {
+					runDist(n1, N-n1, T, tagOf(T, n1, N-n1, defLim, defLimT, "history"))
+				}
+			}
+		}
+		// (b) tests: pairs of members with equal N, equal n1 and an attainable common 2U
+		for i := 0; i < len(fam); i++ {
+			for j := 0; j < len(fam); j++ {
+				if i == j || sumInts(fam[i]) != sumInts(fam[j]) || !hasTie(fam[i]) || !hasTie(fam[j]) {
+					continue
+				}
+				N := sumInts(fam[i])
+				n1 := 3 + (i+j+fi)%4
+				if n1 >= N || N-n1 > defLimT || n1 > defLimT {
+					continue
+				}
+				byU := map[int][]int{}
+				rvectors(fam[i], n1, func(r []int) { byU[twoUofR(fam[i], r)] = append([]int(nil), r...) })
+				done := 0
+				rvectors(fam[j], n1, func(r2 []int) {
+					r1, ok := byU[twoUofR(fam[j], r2)]
+					if !ok || done >= 2 {
+						return
+					}
+					done++
+					a1, a2 := samplesOf(rng, fam[i], r1, 0, 1)
+					b1, b2 := samplesOf(rng, fam[j], append([]int(nil), r2...), 0, 1)
+					for _, alt := range altNames {
+						runMW(a1, a2, 1, defLim, defLimT, alt, tagOf(fam[i], n1, N-n1, defLim, defLimT, "history"))
+						runMW(b1, b2, 1, defLim, defLimT, alt, tagOf(fam[j], n1, N-n1, defLim, defLimT, "history"))
+					}
+				})
+			}
+		}
+	}
+}
+
+func segFam(d string) [][]int {
+	var fam [][]int
+	for _, T := range segmentations(d) {
+		if sumInts(T) <= 24 {
+			fam = append(fam, T)
+		}
+	}
+	return fam
+}
+
+func hasTie(T []int) bool {
+	for _, t := range T {
+		if t > 1 {
+			return true
+		}
+	}
+	return false
 }
 
 // ulps moves x by k representable steps (k may be negative).
